@@ -447,6 +447,16 @@ class Interp:
             return tuple(self.ev(x, env, depth) for x in e["elems"])
         if k == "Array":
             return [self.ev(x, env, depth) for x in e["elems"]]
+        if k == "Repeat":
+            try:
+                cnt = int(str(e.get("count")).split("_")[0])
+            except ValueError:
+                raise Unknown("array repeat count %r" % (e.get("count"),))
+            if cnt > 4096:
+                raise Unknown("array too long for a table")
+            v0 = self.ev(e["e"], env, depth)
+            import copy as _c
+            return [v0 if isinstance(v0, (bool, int, float, str)) else _c.deepcopy(v0) for _ in range(cnt)]
         if k == "Adt":
             fields = {}
             for f in e["fields"]:
@@ -532,6 +542,8 @@ class Interp:
                     hi += 1
                 if isinstance(lo, int) and isinstance(hi, int) and 0 <= lo <= hi <= len(base):
                     return list(base[lo:hi])
+            if isinstance(base, (list, tuple, str)) and isinstance(i, int) and not isinstance(i, bool):
+                raise Unknown("core::panicking: index out of bounds: the len is %d but the index is %d" % (len(base), i))
             raise Unknown("index %r[%r]" % (base, i))
         if k == "Const" or k == "Static":
             b = self.facts.bodies.get(e["path"])
@@ -597,6 +609,8 @@ class Interp:
             if isinstance(base, list) and isinstance(i, int) and 0 <= i < len(base):
                 base[i] = val
                 return
+            if isinstance(base, list) and isinstance(i, int) and not isinstance(i, bool):
+                raise Unknown("core::panicking: index out of bounds: the len is %d but the index is %d" % (len(base), i))
             raise Unknown("indexed assignment %r[%r]" % (base, i))
         if l.get("k") == "Field":
             base = self.ev(l["e"], env, depth)
@@ -773,6 +787,10 @@ class Interp:
                 return self.hash_order(list(v.items))
             if isinstance(v, HMap):
                 return self.hash_order([(k_, x_) for k_, x_ in v.items()])
+            if gen.endswith(("Deref::deref", "DerefMut::deref_mut")):
+                v1 = v.get() if isinstance(v, Ref) else v
+                if isinstance(v1, Enum) and v1.adt == "Located" and "node" in v1.fields and (e.get("self") or "").startswith("rssl_text::location::Located"):
+                    return v1.fields["node"]           # Located<T> derefs to its node
             if isinstance(v, (list, tuple)) or gen.endswith(("Deref::deref", "DerefMut::deref_mut")):
                 return v
             raise Unknown("%s on %r" % (short(gen), v))
@@ -1201,6 +1219,28 @@ class Interp:
                         return Enum("Result", "Ok", {"0": float("inf")})
                 return Enum("Result", "Err", {"0": Opaque("ParseFloatError")})
             raise Unknown("parse of %r as %s" % (v, ty))
+        if gen.startswith(("core::f64::<impl f64>::", "core::f32::<impl f32>::", "std::f64::<impl f64>::", "std::f32::<impl f32>::")) and \
+                short(gen) in ("fract", "trunc", "floor", "ceil", "round", "abs", "signum", "is_sign_negative", "is_sign_positive", "powi", "sqrt", "min", "max", "mul_add", "recip", "copysign"):
+            import math as _m
+            m_ = short(gen)
+            single_ = "f32" in gen.split("::<impl")[0] or "<impl f32>" in gen
+            xs = [self.ev(a, env, depth) for a in args]
+            xs = [x.get() if isinstance(x, Ref) else x for x in xs]
+            if not all(isinstance(x, (int, float)) and not isinstance(x, bool) for x in xs):
+                raise Unknown("%s on %r" % (m_, xs))
+            x0 = float(xs[0])
+            if m_ in ("is_sign_negative", "is_sign_positive"):
+                neg = _m.copysign(1.0, x0) < 0
+                return neg if m_ == "is_sign_negative" else not neg
+            if x0 != x0 or _m.isinf(x0):
+                r_ = {"fract": float("nan"), "abs": abs(x0), "signum": x0 if x0 != x0 else _m.copysign(1.0, x0)}.get(m_, x0)
+            else:
+                r_ = {"fract": lambda: x0 - _m.trunc(x0), "trunc": lambda: float(_m.trunc(x0)), "floor": lambda: float(_m.floor(x0)), "ceil": lambda: float(_m.ceil(x0)),
+                      "round": lambda: float(_m.floor(abs(x0) + 0.5)) * (1.0 if x0 >= 0 else -1.0), "abs": lambda: abs(x0), "signum": lambda: _m.copysign(1.0, x0),
+                      "powi": lambda: x0 ** int(xs[1]), "sqrt": lambda: _m.sqrt(x0) if x0 >= 0 else float("nan"), "min": lambda: min(x0, float(xs[1])), "max": lambda: max(x0, float(xs[1])),
+                      "mul_add": lambda: x0 * float(xs[1]) + float(xs[2]), "recip": lambda: 1.0 / x0 if x0 != 0 else _m.copysign(float("inf"), x0),
+                      "copysign": lambda: _m.copysign(x0, float(xs[1]))}[m_]()
+            return F32(r_) if single_ else r_
         if gen in ("core::f64::<impl f64>::is_infinite", "core::f64::<impl f64>::is_nan", "core::f64::<impl f64>::is_finite",
                    "core::f32::<impl f32>::is_infinite", "core::f32::<impl f32>::is_nan", "core::f32::<impl f32>::is_finite"):
             import math as _m
@@ -1282,6 +1322,68 @@ class Interp:
                     return list(base[lo:hi])
                 raise Unknown("slice bounds (a run-time abort for these values)")
             raise Unknown("index")
+        if gen in ("alloc::vec::Vec::<T, A>::dedup", "alloc::vec::Vec::<T, A>::clear", "alloc::vec::Vec::<T, A>::truncate", "alloc::vec::Vec::<T, A>::reverse",
+                   "core::slice::<impl [T]>::reverse", "alloc::vec::Vec::<T, A>::insert", "alloc::vec::Vec::<T, A>::remove", "alloc::vec::Vec::<T, A>::append"):
+            base = self.ev(args[0], env, depth)
+            base = base.get() if isinstance(base, Ref) else base
+            if not isinstance(base, list):
+                raise Unknown("%s on %r" % (short(gen), base))
+            m_ = short(gen)
+            rest_ = [self.ev(a, env, depth) for a in args[1:]]
+            rest_ = [x.get() if isinstance(x, Ref) else x for x in rest_]
+            if m_ == "dedup":
+                out_ = []
+                for x in base:
+                    if not out_ or not (out_[-1] == x):
+                        out_.append(x)
+                base[:] = out_
+                return ()
+            if m_ == "clear":
+                del base[:]
+                return ()
+            if m_ == "truncate" and isinstance(rest_[0], int):
+                del base[rest_[0]:]
+                return ()
+            if m_ == "reverse":
+                base.reverse()
+                return ()
+            if m_ == "insert" and isinstance(rest_[0], int):
+                if rest_[0] > len(base):
+                    raise Unknown("core::panicking: insert index out of bounds")
+                base.insert(rest_[0], rest_[1])
+                return ()
+            if m_ == "remove" and isinstance(rest_[0], int):
+                if rest_[0] >= len(base):
+                    raise Unknown("core::panicking: remove index out of bounds")
+                return base.pop(rest_[0])
+            if m_ == "append" and isinstance(rest_[0], list):
+                base.extend(rest_[0])
+                del rest_[0][:]
+                return ()
+            raise Unknown("%s arguments" % m_)
+        if gen == "core::default::Default::default" and self.facts.bodies.get(cal) is None:
+            return self.default_of(e.get("ty") or "", depth)
+        if gen in ("core::ops::bit::Not::not", "core::ops::arith::Neg::neg") and len(args) == 1 and self.facts.bodies.get(cal) is None:
+            v = self.ev(args[0], env, depth)
+            v = v.get() if isinstance(v, Ref) else v
+            if gen.endswith("Not::not") and isinstance(v, bool):
+                return not v
+            if gen.endswith("Neg::neg") and isinstance(v, (int, float)) and not isinstance(v, bool):
+                return -v
+            raise Unknown("%s on %r" % (short(gen), v))
+        if gen == "alloc::vec::Vec::<T, A>::resize":
+            base = self.ev(args[0], env, depth)
+            base = base.get() if isinstance(base, Ref) else base
+            n_ = self.ev(args[1], env, depth)
+            fill = self.ev(args[2], env, depth)
+            if isinstance(base, list) and isinstance(n_, int) and 0 <= n_ <= 4096:
+                import copy as _c
+                if n_ < len(base):
+                    del base[n_:]
+                while len(base) < n_:
+                    base.append(fill if isinstance(fill, (bool, int, float, str)) else _c.deepcopy(fill))
+                return ()
+            raise Unknown("resize of %r to %r" % (base, n_))
         if gen in ("core::slice::<impl [T]>::starts_with", "core::slice::<impl [T]>::ends_with"):
             base = self.ev(args[0], env, depth)
             x = self.ev(args[1], env, depth)
@@ -1358,6 +1460,34 @@ class Interp:
             raise Unknown("call to " + cal)
         vals = [self.ev(a, env, depth) for a in args]
         return self.apply(callee, vals, depth + 1)
+
+    def default_of(self, ty, depth):
+        """Default::default() of a type without a body in the workspace (std types, arrays)"""
+        import re as _re
+        ty = ty.strip()
+        if ty == "bool":
+            return False
+        if ty in INT_BITS:
+            return 0
+        if ty in ("f32", "f64"):
+            return 0.0
+        if ty in ("alloc::string::String", "&str"):
+            return ""
+        if ty.startswith("alloc::vec::Vec<"):
+            return []
+        if ty.startswith("core::option::Option<"):
+            return Enum("Option", "None")
+        if ty.startswith("std::collections::hash::set::HashSet"):
+            return HSet()
+        if ty.startswith("std::collections::hash::map::HashMap"):
+            return HMap()
+        m = _re.fullmatch(r"\[(.+); (\d+)\]", ty)
+        if m and int(m.group(2)) <= 4096:
+            return [self.default_of(m.group(1), depth) for _ in range(int(m.group(2)))]
+        body = self.facts.bodies.get("<%s as core::default::Default>::default" % ty)
+        if body is not None and depth < self.max_depth:
+            return self.apply(body, [], depth + 1)
+        raise Unknown("default of " + ty)
 
     def call_callable(self, c, vals, depth):
         if isinstance(c, Ref):
